@@ -75,16 +75,17 @@ func TestC32(t *testing.T) {
 	r := lib.Start("C32")
 	defer lib.End(t, r)
 	r.Level = "fault_enumeration"
-	r.Rule = "case = one (scenario, crash point) pair: scenarios are generated repositories crashed during their first build or during the rebuild after a generated edit, with/without a dir cache; crash points are every hit k=1..N of the verifhook points (N from a counting dry run) plus SIGKILLs from outside at seeded fractions of the measured build duration; plus fs.WriteFile killed at each of its points. Distinct by (scenario, point); non-trivial = the process really died by SIGKILL before finishing"
+	r.Rule = "case = one (scenario, crash point) pair: scenarios are generated repositories crashed during their first build or during the rebuild after a generated edit, with/without a dir cache; crash points are the hits k=1..N of the verifhook points (N from a counting dry run; every k in the thorough tier, an evenly spaced seeded subset of at most 36 per scenario in the quick tier) plus SIGKILLs from outside at seeded fractions of the measured build duration; plus fs.WriteFile killed at each of its points. Distinct by (scenario, point); non-trivial = the process really died by SIGKILL before finishing"
 	r.Assumes = []string{"process death only (SIGKILL); power loss / unsynced data is not modelled", "the recovery build is compared with a from-empty cache-less build at the same path"}
 	bin := lib.PlzBin(false)
 
-	nScen := r.Pick(4, 60)
-	sampled := r.Pick(12, 80) // external kills per scenario
+	nScen := r.Pick(3, 60)
+	sampled := r.Pick(6, 80)    // external kills per scenario
+	maxPoints := r.Pick(36, 0) // quick tier: an evenly spaced, seeded subset of the N hook hits per scenario; thorough: every hit (0 = no cap)
 	r.ForEach("scenario", nScen, 4, func(i int, rng *rand.Rand) {
 		sb := e2e.NewSandbox(filepath.Join(r.Scratch(), fmt.Sprintf("s%d", i)))
 		defer lib.RemoveAll(sb.Work)
-		base := e2e.Generate(rng, e2e.GenOpts{Tools: rng.Intn(2) == 0, DirOuts: true, Sleep: 30, MinTargets: 4, MaxTargets: 7, MaxPkgs: 2, DepOneIn: 2})
+		base := e2e.Generate(rng, e2e.GenOpts{Tools: rng.Intn(2) == 0, DirOuts: true, PostBuild: true, Sleep: 30, MinTargets: 4, MaxTargets: 7, MaxPkgs: 2, DepOneIn: 2})
 		base.VLog = sb.VLog
 		sc := &scenario{sb: sb, state: base, cache: i%2 == 1, threads: 1 + rng.Intn(3)}
 		if sc.cache {
@@ -156,7 +157,13 @@ func TestC32(t *testing.T) {
 		}
 
 		// (a) enumeration of hook points
-		for k := 1; k <= total; k++ {
+		stride, offset := 1, 0
+		if maxPoints > 0 && total > maxPoints {
+			stride = (total + maxPoints - 1) / maxPoints
+			offset = rng.Intn(stride)
+		}
+		r.Obs("hook_points_crashed_at", int64((total-offset+stride-1)/stride))
+		for k := 1 + offset; k <= total; k += stride {
 			if err := sc.prepare(bin); err != nil {
 				r.Inconclusive(fmt.Sprintf("scenario %d: %v", i, err))
 				return
